@@ -90,6 +90,40 @@ fn mirror_fen(fen: &str) -> String {
     format!("{} {} {} {} {} {}", rows.join("/"), turn, cs, ep, f[4], f[5])
 }
 
+/// (d) two pieces of the side to move pinned against their king along two different lines (every pair of the eight
+///     directions, the pinned piece one or two steps from the king, every kind of pinned piece): a pinned piece may move along
+///     ITS line only — never onto the other pin's line.
+pub fn pin_fens() -> Vec<String> {
+    let mut v = vec![];
+    let dirs: [(i32, i32); 8] = [(1, 0), (-1, 0), (0, 1), (0, -1), (1, 1), (1, -1), (-1, 1), (-1, -1)];
+    let (kr, kf) = (3i32, 3i32); // d4
+    let at = |r: i32, f: i32| (r * 8 + f) as usize;
+    for a in 0..8 {
+        for b in (a + 1)..8 {
+            for (ka, kb) in [('N', 'N'), ('N', 'B'), ('B', 'R'), ('R', 'N'), ('Q', 'N'), ('R', 'B'), ('Q', 'R'), ('B', 'Q'), ('P', 'N'), ('N', 'P')] {
+                for (da, db) in [(1, 1), (1, 2), (2, 1), (2, 2)] {
+                    let mut g = [None::<char>; 64];
+                    g[at(kr, kf)] = Some('K');
+                    for (d, kind, dist) in [(dirs[a], ka, da), (dirs[b], kb, db)] {
+                        g[at(kr + d.0 * dist, kf + d.1 * dist)] = Some(kind);
+                        let orth = d.0 == 0 || d.1 == 0;
+                        g[at(kr + d.0 * 3, kf + d.1 * 3)] = Some(if orth { 'r' } else { 'b' });
+                    }
+                    // the other king on a square off all eight lines through d4
+                    for ks in [57usize, 62, 47, 5, 2] {
+                        if g[ks].is_none() {
+                            g[ks] = Some('k');
+                            break;
+                        }
+                    }
+                    v.push(format!("{} w - - 0 1", grid_placement(&g)));
+                }
+            }
+        }
+    }
+    v
+}
+
 /// (c) every piece kind of either colour on every square it can stand on, with bare kings, its owner to move: the caller
 ///     plays every move of these positions (the piece leaves the square, is captured on it when next to the enemy king,
 ///     kings step around it): every (kind, square) word of the incremental key is added or removed at least once.
@@ -275,15 +309,17 @@ impl<W: Write> Emit<W> {
     pub fn perturb(&mut self, b: &Board) {
         use crate::board::ply::castling::{CastlingKind, CastlingStatus};
         let k0 = bv::scratch_key(b);
+        // the key the engine is USING for this position (cache, repetition record): a one-component change must not land on it either
+        let k1 = bv::key_u64(b.zkey);
         let (mut total, mut changed, mut acc) = (0u64, 0u64, 0u64);
         let mut fails: Vec<String> = vec![];
         let mut note = |k: u64, what: String, total: &mut u64, changed: &mut u64, acc: &mut u64| {
             *total += 1;
             *acc ^= k.rotate_left((*total % 64) as u32);
-            if k != k0 {
+            if k != k0 && k != k1 {
                 *changed += 1;
             } else if fails.len() < 4 {
-                fails.push(what);
+                fails.push(if k == k0 { what } else { format!("{what}=live-key") });
             }
         };
         for sq in 0..64u8 {
@@ -412,7 +448,7 @@ pub fn walk(args: &[String]) {
     // structured families, both colours; a member that is not a position of a legal game (the side that has just moved in check) is dropped
     if arg::<u64>(args, "matrix", 1) == 1 {
         let mut idx = 0u64;
-        for fen in matrix_fens() {
+        for fen in matrix_fens().into_iter().chain(pin_fens()) {
             for fen in [fen.clone(), mirror_fen(&fen)] {
                 idx += 1;
                 if idx % of != shard {
